@@ -273,6 +273,7 @@ fn execute<E: Elem>(scripts: &Scripts<E>, root: &Root, hist: &[Step], step: Step
                     host::Anomaly::CloneOfDead(_) => "clone-of-dead".to_string(),
                     host::Anomaly::Garbage { op, .. } => format!("garbage-{op}"),
                     host::Anomaly::ZUnderflow => "zero-sized-underflow".to_string(),
+                    host::Anomaly::ReadOfDead(_) => "read-of-dead".to_string(),
                 })
                 .collect();
             fail = Some(Box::new(Fail {
